@@ -71,6 +71,18 @@ def lookups(tracks, T: int):
     ncmp = 0
     ids = sorted(k for k in ref_t if k is not None)
     unused = (max(ids) if ids else 0) + 7
+    # 'track present at time t' is asked for every (track, t) BEFORE any neighbour query:
+    # get_track_neighbors sorts the per-track list in place, which would hide an answer that
+    # depends on the order in which the list happens to be
+    for tid in ids + [unused]:
+        members = ref_t.get(tid, [])
+        for t in range(-1, T + 1):
+            exp_has = any(times[n] == t for n in members)
+            got_has = tracks.has_track_id_at_time(tid, t)
+            ncmp += 1
+            if bool(got_has) != exp_has:
+                out.append(("has-track", f"has_track_id_at_time({tid},{t}) = {got_has}, "
+                            f"scan {exp_has} (asked before any neighbour query)"))
     for tid in ids + [unused]:
         members = sorted(ref_t.get(tid, []), key=lambda n: times[n])
         for t in range(-1, T + 1):
@@ -193,21 +205,26 @@ def regionprops_values(tracks, fresh_factory=None, only=None):
     shape_keys = [k for k in enabled if k not in (ann.area_key, ann.pos_key)]
     keys = enabled
     if keys:
-        fresh = scratch_values(tracks, keys)
-        for n in times:
-            for k in keys:
-                ncmp += 1
-                got = tracks.get_node_attr(n, k)
-                exp = fresh.get(n, {}).get(k)
-                if not O.close(got, exp, rel=1e-9, abs_=1e-9):
-                    out.append((k if k in shape_keys else k,
-                                f"node {n}: stored {k} {got!r}, from scratch {exp!r}"))
+        # two from-scratch references: the whole frame at once, and every node's own mask
+        # alone in an otherwise empty frame ("computed from that node's current mask and
+        # the scale alone") - they agree on a correct tree
+        for how, fresh in (("frame", scratch_values(tracks, keys)),
+                           ("own-mask", scratch_values(tracks, keys, masked=True))):
+            for n in times:
+                for k in keys:
+                    ncmp += 1
+                    got = tracks.get_node_attr(n, k)
+                    exp = fresh.get(n, {}).get(k)
+                    if not O.close(got, exp, rel=1e-9, abs_=1e-9):
+                        out.append((k, f"node {n}: stored {k} {got!r}, from scratch "
+                                    f"({how}) {exp!r}"))
     return out, ncmp
 
 
-def scratch_values(tracks, keys):
-    """Bulk computation by the library's own regionprops code on a *copy* of the array
-    and a stripped copy of the graph (the 'from-scratch' reference of C08)."""
+def scratch_values(tracks, keys, masked: bool = False):
+    """Computation by the library's regionprops code on a *copy* of the array (the
+    'from-scratch' reference of C08): frame by frame, or (masked) node by node on a frame
+    that contains only that node's mask."""
     from funtracks.annotators._regionprops_extended import regionprops_extended
 
     seg = np.array(tracks.segmentation, copy=True)
@@ -219,8 +236,16 @@ def scratch_values(tracks, keys):
     vals: dict[int, dict] = {}
     with warnings.catch_warnings():
         warnings.simplefilter("ignore")
-        for t in range(seg.shape[0]):
-            for region in regionprops_extended(seg[t], spacing=spacing):
+        if masked:
+            frames = []
+            for t in range(seg.shape[0]):
+                for lab in np.unique(seg[t]):
+                    if lab != 0:
+                        frames.append(np.where(seg[t] == lab, seg[t], 0))
+        else:
+            frames = [seg[t] for t in range(seg.shape[0])]
+        for frame in frames:
+            for region in regionprops_extended(frame, spacing=spacing):
                 d = {}
                 for k in keys:
                     v = getattr(region, names[k])
@@ -231,16 +256,25 @@ def scratch_values(tracks, keys):
     return vals
 
 
+def iou_key(tracks):
+    """The key under which the edge annotator stores the IoU (it can be renamed)."""
+    from funtracks.annotators import EdgeAnnotator
+
+    ann = next((a for a in tracks.annotators if isinstance(a, EdgeAnnotator)), None)
+    return getattr(ann, "iou_key", "iou") if ann is not None else "iou"
+
+
 # C09
 def iou_values(tracks):
     out = []
     ncmp = {"skip": 0, "consecutive": 0}
     seg = tracks.segmentation
-    if seg is None or "iou" not in tracks.annotators.features:
+    ik = iou_key(tracks)
+    if seg is None or ik not in tracks.annotators.features:
         return out, ncmp
     times, edges = graph_view(tracks)
     for u, v in edges:
-        got = tracks.get_edge_attr((u, v), "iou")
+        got = tracks.get_edge_attr((u, v), ik)
         exp = O.ref_iou(seg, times[u], u, times[v], v)
         kind = "skip" if times[v] - times[u] != 1 else "consecutive"
         ncmp[kind] += 1
